@@ -140,6 +140,23 @@ def gen_cases(rng, tier):
       node = {"k": "pow", "a": [{"k": "sum", "a": [node, {"k": "form", "name": "constant", "p": [3.0]}]}, {"k": "form", "name": "constant", "p": [2.0]}]}
     route = "potable" if i % 3 == 0 else "api"
     cases.append({"kind": "tree", "route": route, "node": node, "forms": [], "tables": [], "rs": sorted(set([r0, r0 + 0.25, r0 * 0.5])), "zero_factor": rv})
+  # pow() with small whole-number exponents given as int and as float (0, 1, 2, 3, -1): the degenerate cases of the
+  # power rule (exponent 0: constant, exponent 1: the base itself) must still offer the base's own derivatives
+  ni = 20 if tier == "quick" else 200
+  for i in range(ni):
+    n_ = [0, 1, 2, 3, -1, 1.0, 0.0, 2.0, -1.0, 1][i % 10]
+    base = spec.gen_node(rng, 1, "api", positive=True, kinds=["form", "sum", "product"], rmax=1.0)
+    if i % 3 == 0:
+      base = {"k": "form", "name": "morse", "p": [spec.rfloat(rng, 0.5, 1.5), spec.rfloat(rng, 1.0, 2.0), spec.rfloat(rng, 0.5, 2.0)]}
+      base = {"k": "sum", "a": [base, {"k": "form", "name": "constant", "p": [5.0]}]}
+    node = {"k": "pow", "a": [base, {"k": "form", "name": "constant", "p": [n_]}]}
+    w = (i // 10) % 3
+    if w == 1:
+      node = {"k": "product", "a": [node, spec.gen_form(rng, positive=True)]}
+    elif w == 2:
+      node = {"k": "sum", "a": [spec.gen_form(rng, rmax=1.0), node]}
+    rs = sorted(set(round(rng.uniform(0.4, 5.0), 3) for _ in range(5)))
+    cases.append({"kind": "tree", "route": "potable" if i % 2 else "api", "node": node, "forms": [], "tables": [], "rs": rs, "int_exponent": repr(n_)})
   # per-form sweeps (incl. heavy ZBL at large r and r = 0 for regular forms)
   per = 4 if tier == "quick" else 40
   for name in ALLFORMS:
@@ -259,6 +276,8 @@ def run_case(case, ctx):
     ctx.cls("node:" + k)
   o = oracle.ValueOracle(M, refnode, analytic=spec.all_analytic(node))
   ctx.cls("all_analytic" if o.analytic else "has_numeric_component")
+  if case.get("int_exponent"):
+    ctx.cls("pow_whole_number_exponent:" + case["int_exponent"])
   if case.get("zero_factor"):
     ctx.cls("evaluated_at_exact_root_of_a_component")
     ctx.cls("root:" + case["zero_factor"])
